@@ -16,9 +16,15 @@ WATCHDOG_S = 3000
 
 
 class Universe:
-    def __init__(self, M, clash=False):
+    def __init__(self, M, clash=False, clones=False):
         self.M = M
         self.N = [M.Node(name=f"N{i}") for i in range(3)]
+        if clones:  # the second and third node are clones of the first (same content, other objects)
+            import copy
+            import pickle
+
+            self.N[1] = copy.deepcopy(self.N[0])
+            self.N[2] = pickle.loads(pickle.dumps(self.N[0]))
         ln = ["La", "Lb", "La" if clash else "Lc"]
         self.L = [M.Link(1 + i, 2, 1.0, 180.0, 33.0, 100.0, 1.8, name=ln[i]) for i in range(3)]
         self.O = [M.MeteredOnRamp(2000.0, name="Oa"), M.Origin(name="Oa" if clash else "Ob")]
@@ -98,6 +104,32 @@ def run_history(M, rec, U, ops, seq, rng, read_all=True):
             netmon.check_lookups(M, net, rec, PROP, sub, desc)
     # final read-all
     netmon.check_lookups(M, net, rec, PROP, None, ("final",))
+    if not read_all and rng.random() < 0.25:
+        # a deep copy / pickle round-trip (memoised lookups travel with it) is a network of its own
+        import copy
+        import pickle
+
+        form = rng.choice(("deepcopy", "pickle", "copy"))
+        try:
+            n2 = copy.deepcopy(net) if form == "deepcopy" else (pickle.loads(pickle.dumps(net)) if form == "pickle" else copy.copy(net))
+        except Exception as e:
+            rec.violation(f"{PROP}:a network cannot be copied ({type(e).__name__})", {"history": [s_[2] for s_ in seq]})
+            n2 = None
+        if n2 is not None:
+            rec.count("copied_networks_checked")
+            rec.seen("copy_forms", form)
+            netmon.check_lookups(M, n2, rec, PROP, None, ("copy",))
+            try:
+                nodes2 = list(n2.nodes)
+                up = rng.choice(nodes2) if nodes2 and rng.random() < 0.6 else M.Node(name="Nx")
+                dn = rng.choice(nodes2) if nodes2 and rng.random() < 0.6 else M.Node(name="Ny")
+                n2.add_link(up, M.Link(1, 2, 1.0, 180.0, 33.0, 100.0, 1.8, name="Lx"), dn)
+            except Exception:
+                rec.count("calls_raised")
+            netmon.check_lookups(M, n2, rec, PROP, None, ("copy + add_link",))
+            if form != "copy":  # a shallow copy may share the graph with the original: only the object that
+                # received the call is looked at
+                netmon.check_lookups(M, net, rec, PROP, None, ("original after its copy was extended",))
     rec.count("histories")
 
 
@@ -123,7 +155,7 @@ def run(M, rec, tier, seed, k, n):
     rec.count("exhaustive_histories", rec.counters.get("histories", 0))
     # random, longer, with clashing names / shared objects and random read subsets
     for r in range(300 if tier == "quick" else 6000):
-        Uc = Universe(M, clash=(r % 3 == 0))
+        Uc = Universe(M, clash=(r % 3 == 0), clones=(r % 5 == 1))
         opsc = alphabet(Uc)
         seq = [rng.choice(opsc) for _ in range(rng.randint(3, 12 if tier == "quick" else 20))]
         run_history(M, rec, Uc, opsc, seq, rng, read_all=(r % 2 == 0))
